@@ -1,3 +1,3 @@
 import CobaVerif.Driver.Loop
--- stub: replaced when the C06 model exists
-def main : IO Unit := Coba.J.runLoop (fun _ => .error "C06 driver not implemented")
+import CobaVerif.Driver.C06
+def main : IO Unit := Coba.J.runLoop Coba.C06.Driver.handle
